@@ -107,7 +107,7 @@ func c10VerifyTime(r *core.Run) {
 		w.Sleep(time.Hour)
 		for i := 0; i < n; i++ {
 			a := &c10bArtifact{ID: i, Verdicts: map[string]string{}}
-			a.Case = genSignCase(t, fmt.Sprintf("%dv%d", r.No, i), []string{"cat", "ps", "pe-coff", "msi", "appmanifest"})
+			a.Case = genSignCase(t, fmt.Sprintf("%dv%d", r.No, i), []string{"cat", "ps", "pe-coff", "msi", "appmanifest", "vsix", "mach-o", "jar"})
 			a.Key = core.Pick(t, "short-key", "short-rsa", "short-ec")
 			a.TSAKind = core.Pick(t, "tsa-kind", "valid", "none", "before-lifetime", "after-lifetime", "noeku", "valid", "graft")
 			if a.TSAKind == "graft" && a.Case.Mod != "cat" {
